@@ -88,7 +88,7 @@ def scenario(rng, reactive=False, crash=True):
         crash_at = rng.randint(0, n)
         crashed = rng.sample(names, rng.randint(1, len(names) - 1))
     return {'names': names, 'phens': phens, 'cache': rng.choice((0, 1000)), 'stream': stream, 'assign': assign,
-            'crash_at': crash_at, 'crashed': crashed, 'made': rng.choice((None, None, 'dup', 'uniq'))}
+            'crash_at': crash_at, 'crashed': crashed, 'made': rng.choice((None, None, 'dup', 'uniq')), 'boxed': rng.random() < 0.3}
 
 
 def run_one(sc):
@@ -119,6 +119,11 @@ def run_one(sc):
                 c.input(tgt, mk())
                 c.sync()
                 single.input(mk())
+            elif sc.get('boxed') and k % 3 != 1:
+                # the source sends records (reading first): cluster and single engine get equal records, distinct objects
+                c.input(tgt, pl.box(d, k))
+                c.sync()
+                single.input(pl.box(d, k))
             else:
                 c.input(tgt, d)
                 c.sync()
@@ -196,7 +201,7 @@ def run(ctx: Ctx) -> Result:
                     for crashed in ([[]] if crash_at is None else [['A'], ['B']]):
                         scs.append({'names': ['A', 'B'], 'phens': LOOPY_INERT if st[1] == 1 else gc.CONFLICT, 'cache': 1000,
                                     'stream': st, 'assign': list(assign), 'crash_at': crash_at, 'crashed': crashed,
-                                    'made': (None, 'dup', None, 'uniq')[(len(scs)) % 4]})
+                                    'made': (None, 'dup', None, 'uniq')[(len(scs)) % 4], 'boxed': len(scs) % 8 == 2})
         # three instances without finished-run memory: one instance processes the whole stream, another one is lost at
         # every point (its backlog grows on the processing instance while the third one keeps being served)
         for proc in 'ABC':
